@@ -14,11 +14,11 @@ CLAIMED = {
 
 CLAIMED.update({
     "C01": ("Coq proof (refinement of the assembly loops to lists of additions + ring semantics, any commutative ring) + extracted-model correspondence (channels A, B) + exact rational oracle",
-            "Theorems in Props/C01.v: for every well-formed index-level network, every species row of the generated right-hand side evaluates (in any commutative ring, for every k and y) to the mass-action sum with multiplicities plus the modifier terms; unreacting species get the literal 0.0; the temperature row is heating minus cooling under the (gamma-1)/kerg/npar wrap. Text level (rhs_text_parses, rhs_text_is_mass_action): the string the generator writes for a species row - "0.0" followed by " - k[l]*y[IDX_a]*y[IDX_b]" ... - lexed with C's maximal munch and parsed with C precedence is, for EVERY list of terms, the left-nested sum of the products, and its value is the mass-action law. Tied to TemplateLoader._prepare_ode_content (terms, and the exact text of every species row against the model's text) and to the rendered Fex of dense/sparse/cusparse/rosenbrock4 by term-level comparison with the extracted model and by exact evaluation of the emitted text.",
+            "Theorems in Props/C01.v: for every well-formed index-level network, every species row of the generated right-hand side evaluates (in any commutative ring, for every k and y) to the mass-action sum with multiplicities plus the modifier terms; unreacting species get the literal 0.0; the temperature row is heating minus cooling under the (gamma-1)/kerg/npar wrap. Text level (rhs_text_parses, rhs_text_is_mass_action): the string the generator writes for a species row - '0.0' followed by ' - k[l]*y[IDX_a]*y[IDX_b]' ... - lexed with C's maximal munch and parsed with C precedence is, for EVERY list of terms, the left-nested sum of the products, and its value is the mass-action law. Tied to TemplateLoader._prepare_ode_content (terms, and the exact text of every species row against the model's text) and to the rendered Fex of dense/sparse/cusparse/rosenbrock4 by term-level comparison with the extracted model and by exact evaluation of the emitted text.",
             "Index-level model (species already resolved to slots by the implementation's own species.index; identity of species is C08/C09); species rows are compared as exact text with the model (the rendered sources and rows holding a user modifier factor - arbitrary text - after parsing sums of products with the harness canonicaliser); stmwrap line breaking and floating-point evaluation order not modelled.",
             "7 C01"),
     "C02": ("Coq proof (formal derivative by linearity+Leibniz over any commutative ring; Coquelicot is_derive over R) + correspondence + dual-number oracle",
-            "Theorems in Props/C02.v: every Jacobian entry evaluates to the formal partial derivative of the emitted row (reactions, ODE modifiers with any number of repeated dependencies, thermal terms); omitted entries are identically zero derivatives; over R the formal derivative is Coquelicot's is_derive with rates held fixed; text level (jac_text_is_derivative): the string of an entry of the species block, read as C, evaluates to that formal derivative. Tied to ode.jac.rhs/vals (terms and exact text) and to the four rendered Jacobians by term comparison and by exact dual-number differentiation of the emitted right-hand side.",
+            "Theorems in Props/C02.v: every Jacobian entry evaluates to the formal partial derivative of the emitted row (reactions, ODE modifiers with any number of repeated dependencies, thermal terms); omitted entries are identically zero derivatives; over R the formal derivative is Coquelicot's is_derive with rates held fixed; text level (jac_text_is_derivative, jac_thermal_text_is_derivative): the string of an entry, read as C, evaluates to that formal derivative; the wrapped entries of the temperature row parse as the wrapping of the derivative of the unwrapped row. Tied to ode.jac.rhs/vals (terms and exact text) and to the four rendered Jacobians by term comparison and by exact dual-number differentiation of the emitted right-hand side.",
             "Derivative with respect to explicit occurrences of y[IDX_j]; gamma, npar, kerg, rate coefficients are parameters. Axioms: the three standard real-number axioms (ClassicalDedekindReals.sig_forall_dec, sig_not_dec, functional_extensionality_dep) only for the is_derive theorems.",
             "7 C02"),
     "C03": ("Coq proof (CSR loop refined to per-row entry lists; layouts proved equal as triple lists) + correspondence + structural oracle on rendered files",
@@ -90,7 +90,7 @@ CLAIMED.update({
 
 CLAIMED.update({
     "C16": ("Coq proof (term-list model of the coupling matrix and the per-species factor; finite-sum algebra over R: exchange of the species and element sums, the weight cancels) + extracted-model correspondence on the emitted terms + exact rational solve-and-apply oracle on generator output and rendered naunet_renorm.cpp",
-            "Theorems in Props/C16.v, for arbitrary real abundances, any solution r of the generated system M r = ref and any Hn <> 0: after the generated update the total of every element is Hn x ref_i (so its abundance relative to hydrogen nuclei is the reference ratio) - with no assumption on the mass numbers, the weight (mass number, or 1 for a dust grain) being provably non-zero and cancelling; electrons are untouched; with additive mass numbers r = 1 solves the system exactly when the totals already match and then changes nothing. Text level (matrix_text_is_entry, factor_text_is_factor): the strings "0.0 + q * ab[IDX_k] / d / Hnuclei + ..." and "q * rptr[IDX_ELEM_j] / d + ...", lexed and parsed as C, have exactly these values, for every list of terms. Tied to _prepare_renorm_content (terms and exact text) and the rendered InitRenorm / RenormAbundance (entry positions through the rendered macros).",
+            "Theorems in Props/C16.v, for arbitrary real abundances, any solution r of the generated system M r = ref and any Hn <> 0: after the generated update the total of every element is Hn x ref_i (so its abundance relative to hydrogen nuclei is the reference ratio) - with no assumption on the mass numbers, the weight (mass number, or 1 for a dust grain) being provably non-zero and cancelling; electrons are untouched; with additive mass numbers r = 1 solves the system exactly when the totals already match and then changes nothing. Text level (matrix_text_is_entry, factor_text_is_factor): the strings '0.0 + q * ab[IDX_k] / d / Hnuclei + ...' and 'q * rptr[IDX_ELEM_j] / d + ...', lexed and parsed as C, have exactly these values, for every list of terms. Tied to _prepare_renorm_content (terms and exact text) and the rendered InitRenorm / RenormAbundance (entry positions through the rendered macros).",
             "The dense linear solve of SUNDIALS is not modelled (the theorem is for any exact solution; the oracle uses exact rational elimination; channel C runs the rendered Naunet::SetReferenceAbund / Renorm four times on one object against a stand-in with a floating-point dense solve); floating-point rounding outside the model; known finding: no identity when an element occurs only inside molecules; two fixed defects (grain mass number 0, empty factor).",
             "7 C16"),
 })
